@@ -1,5 +1,6 @@
 \* quick retry facet: two attempts (time-out, new committee, fresh nonces), shares of the previous attempt, any
 \* submission order; q = 11, n in {3, 4}, t = 2, three sampled polynomials
+\* measured: 78,216 distinct / 2,933,454 generated states, 30 s
 CONSTANTS
   Q = 11
   NSet = {3, 4}
